@@ -943,6 +943,12 @@ class GeneralSFTPFile(PrefixingLogMixin):
             def _bad(): raise createSFTPError(FX_BAD_MESSAGE, "new size is not a valid nonnegative integer")
             return defer.execute(_bad)
 
+        if size is not None and only_if_at is None:
+            # A size change is a change: like writeChunk, note it when the
+            # request is made, because close() decides at call time whether
+            # there is anything to upload.
+            self.has_changed = True
+
         d = defer.Deferred()
         def _set(ign):
             if noisy: self.log("_set(%r) in %r" % (ign, request), level=NOISY)
@@ -958,6 +964,7 @@ class GeneralSFTPFile(PrefixingLogMixin):
                 # TODO: should we refuse to truncate a file opened with FXF_APPEND?
                 # <http://allmydata.org/trac/tahoe-lafs/ticket/1037#comment:20>
                 self.consumer.set_current_size(size)
+                self.has_changed = True
             eventually_callback(d)(None)
             return None
         self.async_.addCallbacks(_set, eventually_errback(d))
